@@ -173,13 +173,13 @@ RULE = ("value domain: nested dictionaries (plain or a dict subclass) with strin
         "leaves 0,'x' (quick: 144^2 pairs) or 0,None,'x' (thorough: 400^2 pairs), all pairs over {a,b,c} of depth 1 with three "
         "leaves rotating with the seed (64^2), all 144 pairs over one key of depth <= 3 with leaves 0,None,'x', all triples of "
         "depth-1 dictionaries over {a,b} x 5 levels (all 6 permutations, both nestings); systematic: of the 21609 dictionaries "
-        "over {a,b} of depth <= 3 with leaves 0,'x' every 12th with one partner (quick: 1801 pairs) / every one with two partners "
-        "(thorough: 43218 pairs) — depth 3 is otherwise sampled only; sampled per seed (quick / thorough): 1600 / 60000 pairs "
-        "(60% depth 3) and 1600 / 40000 tuples of 2-4 dictionaries over 3 keys up to depth 3 with the whole palette, 60% "
-        "neighbours of each other, levels also -2 and 4; 266 / 10000 narrow pairs of depth 4-6 with levels -1,-2,1,2,4,5,6; "
+        "over {a,b} of depth <= 3 with leaves 0,'x' every 12th with one partner (quick: 1801 pairs) / every one with one partner "
+        "(thorough: 21609 pairs) — depth 3 is otherwise sampled only; sampled per seed (quick / thorough): 1600 / 45000 pairs "
+        "(60% depth 3) and 1600 / 30000 tuples of 2-4 dictionaries over 3 keys up to depth 3 with the whole palette, 60% "
+        "neighbours of each other, levels also -2 and 4; 266 / 7500 narrow pairs of depth 4-6 with levels -1,-2,1,2,4,5,6; "
         "1000 / 15000 update_nested calls with key chains of length 0-12 ending in an absent key or a non-dictionary (objects "
         "after the call and write log compared), 14 self-referential ones; 400 / 3000 calls with non-dictionary arguments, "
-        "100 / 750 with keyword arguments; 400 / 8000 each of: update_recursively with a string / dictionary / other `other` and "
+        "100 / 750 with keyword arguments; 400 / 6000 each of: update_recursively with a string / dictionary / other `other` and "
         "with `value`; 2-4 successive update_recursively calls on one d with every `other` inspected afterwards; Zip over 1-4 "
         "stub sources (fill-compute or fill-request, optional namedtuple fields, 40% with a second tuple of values through the "
         "same Zip object); group_plots and Split._get_context over branches built from real SetContext elements; "
@@ -457,7 +457,7 @@ def _gen(ctx, n_exh_leaves, n_pair, n_multi, n_nested, n_bad, n_ext):
             for b in ud3_1:
                 yield {"op": "pair", "a": a, "b": b, "levels": LEVELS, "paths": True}
         n3 = len(ud3)
-        stride, partners = (12, 1) if n_exh_leaves < 3 else (1, 2)
+        stride, partners = (12, 1) if n_exh_leaves < 3 else (1, 1)
         for i in range(0, n3, stride):
             for j in range(partners):
                 b = ud3[(i * 7919 + 13 + 1009 * j) % n3] if (i + j) % 3 else ud3[(i + 1 + j) % n3]     # far and near partners
@@ -661,7 +661,7 @@ def _gen(ctx, n_exh_leaves, n_pair, n_multi, n_nested, n_bad, n_ext):
 def gen_cases(ctx):
     if ctx.tier == "quick":
         return _gen(ctx, 2, 1600, 1600, 1000, 400, 400)
-    return _gen(ctx, 3, 60000, 40000, 15000, 3000, 8000)
+    return _gen(ctx, 3, 45000, 30000, 15000, 3000, 6000)
 
 
 def search_cases(ctx):
@@ -1090,6 +1090,8 @@ def _run_impl(case):
         _tok_tree(d, enc, ctr, mp)
         for o in others:
             _tok_tree(o, enc, ctr, mp)
+        # every numbered object stays alive to the end: an object that d drops on the way must not lend its id() to a new one
+        alive = [copy.copy(d)] + _mut_objs(d) + [x for o in others for x in _mut_objs(o)]
         steps = []
         for o in others:
             before = _shallow_all(d, *others)
@@ -1101,8 +1103,10 @@ def _run_impl(case):
                 break
             steps.append({"d": copy.deepcopy(d), "d_before": d_before, "o_before": o_before,
                           "tree": _tok_result(d, enc, mp), "written": _written(before, mp)})
-        return {"steps": steps, "others_after": [_tok_result(o, enc, mp) for o in others],
-                "others_values": [copy.deepcopy(o) for o in others]}
+        out = {"steps": steps, "others_after": [_tok_result(o, enc, mp) for o in others],
+               "others_values": [copy.deepcopy(o) for o in others]}
+        del alive
+        return out
     if op == "ustr":
         d, other = _fresh(case["d"]), _fresh(case["other"])
         args = [d, other] + ([_fresh(case["value"])] if "value" in case else [])
